@@ -8,6 +8,8 @@ mod lexer;
 #[cfg(test)]
 mod tests;
 mod validator;
+#[cfg(feature = "verif_hooks")]
+pub mod verif_hooks;
 
 use std::{
     borrow::Cow,
@@ -491,6 +493,8 @@ impl<B: Backend> Compiler<B, CompilerReady> {
         let mut warnings = Vec::<CompilerError>::new();
         let mut modules: Vec<ToplevelDefinition> = vec![];
         for src in &self.state.sources {
+            #[cfg(feature = "verif_hooks")]
+            crate::verif_hooks::point("lex_source");
             let src_unit = src.try_into()?;
             modules.append(
                 &mut asn_spec(src_unit)?
@@ -506,7 +510,11 @@ impl<B: Backend> Compiler<B, CompilerReady> {
                     .collect(),
             );
         }
+        #[cfg(feature = "verif_hooks")]
+        crate::verif_hooks::point("validate");
         let (valid_items, mut validator_errors) = Validator::new(modules).validate()?;
+        #[cfg(feature = "verif_hooks")]
+        crate::verif_hooks::point("validated");
         let modules = valid_items.into_iter().fold(
             BTreeMap::<String, Vec<ToplevelDefinition>>::new(),
             |mut modules, tld| {
@@ -525,6 +533,8 @@ impl<B: Backend> Compiler<B, CompilerReady> {
             },
         );
         for (_, module) in modules {
+            #[cfg(feature = "verif_hooks")]
+            crate::verif_hooks::point("generate_module");
             let mut generated_module = self.backend.generate_module(module)?;
             if let Some(m) = generated_module.generated {
                 generated_modules.push(m);
@@ -532,6 +542,8 @@ impl<B: Backend> Compiler<B, CompilerReady> {
             warnings.append(&mut generated_module.warnings);
         }
         warnings.append(&mut validator_errors);
+        #[cfg(feature = "verif_hooks")]
+        crate::verif_hooks::point("compiled");
 
         Ok(CompileResult {
             generated: generated_modules.join("\n"),
